@@ -462,7 +462,7 @@ def run(ck):
             a = (sg[0] if via is None else via[2])["args"]
             sgf = (sg[0] if via is None else via[2]).func
             data_vars = {d_["var"] for d_ in sgf.events("decl") if d_.get("var") and "bytes.data()" in ((d_.get("init") or {}).get("t") or "")}
-            on_data = lambda x: "bytes.data()" in (x.get("t") or "") or any(re.search(r"\b%s\b" % re.escape(v_), x.get("t") or "") for v_ in data_vars)
+            on_data = lambda x: "bytes.data()" in (x.get("t") or "") or any(re.search(r"\b%s\b" % re.escape(v_.split("@")[0]), x.get("t") or "") for v_ in data_vars)
             ok = ok and len(a) == 3 and all(on_data(x) for x in a) and "size()" in (a[2].get("t") or "")
             if via is None:
                 ok = ok and off[0]["var"] in (a[1].get("t") or "")
